@@ -7,6 +7,7 @@ CONSTANTS
   EmitEvery = 1
   Decoys = {0, 2}
   HolderKeys = {"", "H1"}
+  PairStrats = FALSE
   ShapeIdx = {1, 2, 3, 4, 5, 6, 7, 8}
   PlanSet <- Plans
   PresChoices <- Pres
